@@ -9,7 +9,7 @@ import (
 
 func init() {
 	register("C01", propMeta{
-		Explanation: "Decides the structural necessary conditions of inbound-packet authenticity on every path of the current source: in Keeper.RecvPacket every state write, event, success return and the ErrUnauthorized return is edge-dominated by the nil-error edge of ClientState.VerifyPacketCommitment and of ValidatePacket; the verifier's arguments are bound to the packet's own source/dest/sequence, to CommitPacket(packet), to the submitted proof and height, and to the client and client store of the same chain, which is the packet's source or relay chain; CommitPacket hashes exactly packet.GetData(); the proven path has one hole per (source,dest,sequence); in msgServer.RecvPacket the application callback and acknowledgement writes are dominated by the keeper's success (or the ErrUnauthorized case) and receive the same msg.Packet; each of the three light clients reaches success only through height bound, consensus state at the proof height, delay check and a membership call over that state's root with key derived from (source,dest,sequence) and the claimed value. NOT decided: cryptographic soundness of ICS-23/IAVL/MPT, SDK rollback of rejected messages, multi-chain histories.",
+		Explanation: "Decides the structural necessary conditions of inbound-packet authenticity on every path of the current source: in Keeper.RecvPacket every state write, event, success return and the ErrUnauthorized return is edge-dominated by the nil-error edge of ClientState.VerifyPacketCommitment and of ValidatePacket; the verifier's arguments are bound to the packet's own source/dest/sequence, to CommitPacket(packet), to the submitted proof and height, and to the client and client store of the same chain, which is the packet's source or relay chain; CommitPacket hashes exactly packet.GetData(); the proven path has one hole per (source,dest,sequence); in msgServer.RecvPacket the application callback and acknowledgement writes are dominated by the keeper's success (or the ErrUnauthorized case) and receive the same msg.Packet; each of the three light clients reaches success only through height bound, consensus state at the proof height, delay check and a membership call over that state's root with key derived from (source,dest,sequence) and the claimed value. Also (shared with C08): MerklePath.GetKey returns the key-path element unchanged for every string over the store-key alphabet (evaluated on the returned term with the analyser's copy of net/url), every ics23.VerifyMembership call - in the chained verifier or a helper of it - has a fail-only false edge, and the BSC/ETH Merkle-Patricia verifier binds contract address, account RLP, storage root, raw slot and value. NOT decided: cryptographic soundness of ICS-23/IAVL/MPT, SDK rollback of rejected messages, multi-chain histories.",
 		Assumptions: []string{"ICS-23, go-ethereum trie and cometbft light verification are correct", "a message handler that returns an error has all its writes discarded by the SDK"},
 		Trusted:     commonTrusted,
 	}, ruleC01)
